@@ -17,7 +17,8 @@ def _child(job, wfd):
     world.CRUMB_FD = wfd
     res = None
     try:
-        faulthandler.dump_traceback_later(job.get("deadline", 60) - 2, exit=True)
+        # a run that hangs dumps its stack into the result pipe shortly before the parent kills it
+        faulthandler.dump_traceback_later(max(5, job.get("deadline", 60) - 3), file=wfd, exit=False)
         kind = job["kind"]
         if kind == "seed":
             prog = program.generate(job["property"], job["run_seed"], job.get("tier", "quick"), job.get("opts") or {})
@@ -37,6 +38,7 @@ def _child(job, wfd):
         res = {"status": "harness_error", "error": "".join(traceback.format_exception(type(e), e, e.__traceback__))[-3000:]}
     if not job.get("want_program", True) and res.get("status") == "ok":
         res.pop("program", None)
+    faulthandler.cancel_dump_traceback_later()
     data = (json.dumps(res, default=str) + "\n").encode()
     off = 0
     while off < len(data):
@@ -110,7 +112,8 @@ def serve():
             else:
                 crumbs.append(o)
         if timed_out:
-            res = {"status": "harness_timeout", "error": "child exceeded %ss" % deadline, "crumbs": crumbs[-2:]}
+            res = {"status": "harness_timeout", "crumbs": crumbs[-2:],
+                   "error": "child exceeded %ss\n%s" % (deadline, "\n".join(ln for ln in lines if not ln.startswith("{"))[-1500:])}
         elif res is None:
             if os.WIFSIGNALED(st) and crumbs and crumbs[-1].get("armed") is not None:
                 # the interpreter itself crashed while an allocation failure was armed: a NumPy/SciPy
